@@ -233,7 +233,7 @@ Proof.
 Qed.
 
 (* one operation: sample b of the result = the batch-1 instance's result on sample b's operation *)
-Theorem step_sample b B s o : b < B -> shaped B (cols N s) -> op_shaped B o -> no_update (training N s) o ->
+Theorem neuron_step_sample b B s o : b < B -> shaped B (cols N s) -> op_shaped B o -> no_update (training N s) o ->
   step N c p (pstate b s) (pop b o) = pres b (step N c p s o).
 Proof.
   intros Hb Hs Ho Hf. destruct o as [a lock xs|keep|m|a|d|v|r|v r a]; cbn [step pop op_shaped no_update pstate training cols] in *.
@@ -263,7 +263,7 @@ Theorem neuron_batch_independent :
 Proof.
   induction ops as [|o tl IH]; intros s b B Hb Hs Hops Hf; [reflexivity|].
   inversion Hops as [|? ? Ho Htl]; subst. destruct Hf as [Hf1 Hf2].
-  cbn [map run]. rewrite (step_sample b B) by assumption. f_equal.
+  cbn [map run]. rewrite (neuron_step_sample b B) by assumption. f_equal.
   change (snd (pres b (step N c p s o))) with (pstate b (snd (step N c p s o))).
   apply (IH _ b B Hb); [now apply step_shaped|exact Htl|].
   rewrite step_training. exact Hf2.
@@ -289,7 +289,7 @@ Qed.
 
 (* ---------- with the adaptation update running: spikes / voltages / refractory times are still per sample ----------
    (any number type; the adaptation half of the statement is [neuron_forward_coupling] below) *)
-Theorem forward_sample_dynamics b B adapt lock cs xs :
+Theorem neuron_forward_sample_dynamics b B adapt lock cs xs :
   b < B -> shaped B cs -> rows B xs ->
   let r := forward N c p adapt lock cs xs in
   let r1 := forward N c p adapt lock (map (pcol b) cs) (map (prow b) xs) in
